@@ -8,7 +8,6 @@ import (
 	"sort"
 	"strings"
 	"sync"
-	"time"
 
 	"verif/core"
 	"verif/gen"
@@ -221,6 +220,12 @@ func (s *c06State) compareWithSolo(fs c06FlagSet, group []*c06Pkg, got c06RunRes
 		}
 	}
 	for name := range got.tree {
+		if name == "..v" && fs.Name != "plain" {
+			// with -ignore-errors an unloadable package makes goose write `..v` under -out; that is a
+			// finding of C17 (sig ignore-errors-stray-file-for-unloadable-package), not a co-translation effect
+			r.Count("stray_dotdot_v_files_ignored_(C17_finding)", 1)
+			continue
+		}
 		if !inGroup[name] {
 			r.Violate("cotranslation-extra-file", fmt.Sprintf("%s: file %s belongs to no package of the invocation", what, name), map[string]interface{}{"command": got.iv.cmdline()})
 		}
@@ -353,7 +358,7 @@ func runC06(r *core.Run) (bool, string) {
 	}
 
 	// ---- 1. repetitions of ./... under each GOMAXPROCS
-	reps := r.Pick(5, 50)
+	reps := r.Pick(6, 50)
 	refs := map[string]c06RunResult{}
 	for _, fs := range c06FlagSets {
 		ref := s.run(s.bin, "ref", nil, fs.Flags, allPatterns)
@@ -426,7 +431,7 @@ func runC06(r *core.Run) (bool, string) {
 		r.Distinct("group|" + fs.Name + "|all")
 	}
 	rng := core.NewRng(r.Seed, "c06-groups")
-	ngroups := r.Pick(10, 200)
+	ngroups := r.Pick(20, 200)
 	type gj struct {
 		fs    c06FlagSet
 		group []*c06Pkg
@@ -474,7 +479,7 @@ func runC06(r *core.Run) (bool, string) {
 		r.Inconclusive("race-build-failed")
 		return false, "cannot build goose -race: " + raceErr.Error()
 	}
-	nrace := r.Pick(5, 100)
+	nrace := r.Pick(6, 100)
 	raceDir := filepath.Join(r.Scratch, "c06race")
 	os.MkdirAll(raceDir, 0o755)
 	core.Parallel(nrace, 3, func(i int) {
@@ -543,6 +548,5 @@ func runC06(r *core.Run) (bool, string) {
 	if r.GetCount("files_compared_with_singleton_run") < 50 {
 		return false, "fewer than 50 files compared with singleton runs"
 	}
-	_ = time.Second
 	return true, ""
 }
